@@ -114,18 +114,18 @@ theorem restoreOn_doc (cfg : Cfg) (p t : Port) (id : String) (hp : WF cfg p) (hc
     simp only [hen, he, if_true]
     simp only [docOf, he, if_true]
 
-theorem putBody_err_names_entry (cfg : Cfg) (ports : String → Option Port) (docs : List PortDoc) (id : String)
-    (e : EntryErr) (h : (putBody cfg ports docs).2 = .err id e) :
-    ∃ d ∈ docs, d.id = id ∧ ∃ tgt, restoreOn cfg tgt d = .error e := by
+theorem putBody_err_names_entry (cfg : Cfg) (lc : LoopCheck) (ports : String → Option Port) (docs : List PortDoc)
+    (id : String) (e : EntryErr) (h : (putBody cfg lc ports docs).2 = .err id e) :
+    ∃ d ∈ docs, d.id = id ∧ ∃ m tgt, restoreChk cfg lc m tgt d = .error e := by
   induction docs generalizing ports with
   | nil => simp [putBody] at h
   | cons d r ih =>
     simp only [putBody] at h
-    cases hr : restoreOn cfg (ports d.id) d with
+    cases hr : restoreChk cfg lc (exprMap ports) (ports d.id) d with
     | error e' =>
       rw [hr] at h
       simp only [PutResp.err.injEq] at h
-      exact ⟨d, List.mem_cons_self, h.1, ports d.id, h.2 ▸ hr⟩
+      exact ⟨d, List.mem_cons_self, h.1, exprMap ports, ports d.id, h.2 ▸ hr⟩
     | ok o =>
       rw [hr] at h
       cases o with
@@ -136,71 +136,139 @@ theorem putBody_err_names_entry (cfg : Cfg) (ports : String → Option Port) (do
         obtain ⟨d', hd, h1, h2⟩ := ih _ h
         exact ⟨d', List.mem_cons_of_mem _ hd, h1, h2⟩
 
-/-- entries are processed independently: with distinct ids, an accepted document leaves under every entry's id
-exactly what the loop body produced for it from the port that was there when the PUT started -/
-theorem putBody_ok_entry (cfg : Cfg) (ports : String → Option Port) (docs : List PortDoc)
-    (nd : (docs.map (·.id)).Nodup) (h : (putBody cfg ports docs).2 = .ok) :
-    ∀ d ∈ docs, ∃ o, restoreOn cfg (ports d.id) d = .ok o ∧
-      (putBody cfg ports docs).1 d.id = (match o with | some q => some q | none => ports d.id) := by
+/-- entries only touch the port registered under their own id -/
+theorem putBody_other (cfg : Cfg) (lc : LoopCheck) (ports : String → Option Port) (docs : List PortDoc) (x : String)
+    (hx : x ∉ docs.map (·.id)) : (putBody cfg lc ports docs).1 x = ports x := by
   induction docs generalizing ports with
-  | nil => intro d hd; cases hd
-  | cons d r ih =>
-    simp only [List.map_cons, List.nodup_cons] at nd
-    have other : ∀ (pp : String → Option Port) (l : List PortDoc) (x : String),
-        x ∉ l.map (·.id) → (putBody cfg pp l).1 x = pp x := by
-      intro pp l
-      induction l generalizing pp with
-      | nil => intro x _; rfl
-      | cons a l ihl =>
-        intro x hx
-        simp only [List.map_cons, List.mem_cons, not_or] at hx
-        simp only [putBody]
-        cases restoreOn cfg (pp a.id) a with
-        | error e => exact upd_other _ _ _ _ hx.1
-        | ok o =>
-          cases o with
-          | none => exact ihl pp x hx.2
-          | some q => simp only; rw [ihl _ x hx.2, upd_other _ _ _ _ hx.1]
-    intro d' hd'
-    simp only [putBody] at h ⊢
-    cases hr : restoreOn cfg (ports d.id) d with
-    | error e => rw [hr] at h; cases h
-    | ok o =>
-      rw [hr] at h
-      rcases List.mem_cons.mp hd' with rfl | hmem
-      · refine ⟨o, hr, ?_⟩
-        cases o with
-        | none => simp only; exact other ports r d'.id nd.1
-        | some q => simp only; rw [other _ r d'.id nd.1, upd_self]
-      · have hne : d'.id ≠ d.id := by
-          intro e
-          exact nd.1 (e ▸ List.mem_map_of_mem (f := (·.id)) hmem)
-        cases o with
-        | none => exact ih ports nd.2 h d' hmem
-        | some q =>
-          simp only at h ⊢
-          obtain ⟨o', h1, h2⟩ := ih _ nd.2 h d' hmem
-          rw [upd_other _ _ _ _ hne] at h1 h2
-          exact ⟨o', h1, h2⟩
-
-/-- a document whose entries are all accepted on the ports that were there when the PUT started (distinct ids) is
-accepted as a whole -/
-theorem putBody_accepts (cfg : Cfg) (src : List (String × Port)) (ports : String → Option Port)
-    (nd : (src.map (·.1)).Nodup)
-    (h : ∀ x ∈ src, ∃ r, restoreOn cfg (ports x.1) (docOf x.1 x.2) = .ok (some r)) :
-    (putBody cfg ports (src.map (fun x => docOf x.1 x.2))).2 = .ok := by
-  induction src generalizing ports with
   | nil => rfl
-  | cons x r ih =>
+  | cons a l ih =>
+    simp only [List.map_cons, List.mem_cons, not_or] at hx
+    simp only [putBody]
+    cases restoreChk cfg lc (exprMap ports) (ports a.id) a with
+    | error e => exact upd_other _ _ _ _ hx.1
+    | ok o =>
+      cases o with
+      | none => exact ih ports hx.2
+      | some q => simp only; rw [ih _ hx.2, upd_other _ _ _ _ hx.1]
+
+/-- the expressions the hub carries are "below" the source's: every port has no expression or the source's -/
+def Below (S m : String → String) : Prop := ∀ id, m id = "" ∨ m id = S id
+
+theorem exprText_congr (p q : Port) (h : p.attrs = q.attrs) : exprText (some p) = exprText (some q) := by
+  simp only [exprText, h]
+
+/-- the whole document: if every entry is accepted on the port registered under its id at the start, whatever
+expressions below the source's the other ports carry, then the document is accepted and every entry's port ends up as
+the loop body produced it (distinct ids: later entries do not touch it) -/
+theorem putBody_roundtrip (cfg : Cfg) (lc : LoopCheck) (S : String → String) (src : List (String × Port))
+    (ports : String → Option Port) (nd : (src.map (·.1)).Nodup)
+    (hb : Below S (exprMap ports))
+    (hS : ∀ x ∈ src, S x.1 = exprText (some x.2))
+    (hstep : ∀ x ∈ src, ∀ m, Below S m → ∃ r, restoreChk cfg lc m (ports x.1) (docOf x.1 x.2) = .ok (some r) ∧
+      r.pdef = x.2.pdef ∧ r.attrs = x.2.attrs ∧ (enabledOf x.2 = true → r.value = x.2.value)) :
+    (putBody cfg lc ports (src.map (fun x => docOf x.1 x.2))).2 = .ok ∧
+    ∀ x ∈ src, ∃ r, (putBody cfg lc ports (src.map (fun x => docOf x.1 x.2))).1 x.1 = some r ∧
+      r.pdef = x.2.pdef ∧ r.attrs = x.2.attrs ∧ (enabledOf x.2 = true → r.value = x.2.value) := by
+  induction src generalizing ports with
+  | nil => exact ⟨rfl, fun x hx => by cases hx⟩
+  | cons x rest ih =>
     simp only [List.map_cons, List.nodup_cons] at nd
-    obtain ⟨q, hq⟩ := h x List.mem_cons_self
+    obtain ⟨r, hr, h1, h2, h3⟩ := hstep x List.mem_cons_self (exprMap ports) hb
     have hid : (docOf x.1 x.2).id = x.1 := rfl
-    simp only [List.map_cons, putBody, hid, hq]
-    apply ih _ nd.2
+    have hne : ∀ y ∈ rest, y.1 ≠ x.1 := fun y hy e => nd.1 (e ▸ List.mem_map_of_mem (f := (·.1)) hy)
+    have hb' : Below S (exprMap (upd ports x.1 (some r))) := by
+      intro id
+      by_cases e : id = x.1
+      · subst e
+        right
+        simp only [exprMap, upd_self]
+        rw [exprText_congr r x.2 h2]
+        exact (hS x List.mem_cons_self).symm
+      · simp only [exprMap, upd_other _ _ _ _ e]
+        exact hb id
+    have ih' := ih (upd ports x.1 (some r)) nd.2 hb' (fun y hy => hS y (List.mem_cons_of_mem _ hy))
+      (fun y hy m hm => by
+        rw [upd_other _ _ _ _ (hne y hy)]
+        exact hstep y (List.mem_cons_of_mem _ hy) m hm)
+    simp only [List.map_cons, putBody, hid, hr]
+    refine ⟨ih'.1, ?_⟩
     intro y hy
-    have hne : y.1 ≠ x.1 := fun e => nd.1 (e ▸ List.mem_map_of_mem (f := (·.1)) hy)
-    rw [upd_other _ _ _ _ hne]
-    exact h y (List.mem_cons_of_mem _ hy)
+    rcases List.mem_cons.mp hy with rfl | hm
+    · refine ⟨r, ?_, h1, h2, h3⟩
+      rw [putBody_other cfg lc _ _ y.1 (by rw [List.map_map]; exact nd.1), upd_self]
+    · exact ih'.2 y hm
+
+theorem loopRefused_false (cfg : Cfg) (lc : LoopCheck) (m : String → String) (target : Option Port) (d : PortDoc)
+    (hl : ∀ c, entryExpr cfg d = some c → lc m d.id c = false) : loopRefused cfg lc m target d = false := by
+  unfold loopRefused
+  cases createdFor cfg target d with
+  | none => rfl
+  | some p =>
+    simp only
+    cases h : entryExpr cfg d with
+    | none => simp
+    | some c => simp [hl c h]
+
+theorem restoreChk_doc (cfg : Cfg) (lc : LoopCheck) (m : String → String) (p t : Port) (id : String) (hp : WF cfg p)
+    (hc : Compatible t p) (hl : ∀ c, entryExpr cfg (docOf id p) = some c → lc m id c = false) :
+    ∃ r, restoreChk cfg lc m (some t) (docOf id p) = .ok (some r) ∧ r.pdef = p.pdef ∧ r.attrs = p.attrs ∧
+      (enabledOf p = true → r.value = p.value) := by
+  unfold restoreChk
+  rw [loopRefused_false cfg lc m (some t) (docOf id p) hl]
+  exact restoreOn_doc cfg p t id hp hc
+
+theorem exprText_startPort_true (b : Option Port) : exprText (startPort true b) = "" := by
+  unfold startPort
+  cases afterReset b with
+  | none => rfl
+  | some p =>
+    simp only [Option.map_some, exprText, clearExpr, if_true]
+    cases p.attrs "expression" <;> rfl
+
+theorem find_of_nodup (src : List (String × Port)) (nd : (src.map (·.1)).Nodup) (x : String × Port) (hx : x ∈ src) :
+    src.find? (fun y => y.1 = x.1) = some x := by
+  induction src with
+  | nil => cases hx
+  | cons a r ih =>
+    simp only [List.map_cons, List.nodup_cons] at nd
+    simp only [List.find?_cons]
+    rcases List.mem_cons.mp hx with rfl | hm
+    · simp
+    · have : a.1 ≠ x.1 := fun e => nd.1 (e ▸ List.mem_map_of_mem (f := (·.1)) hm)
+      simp only [this, decide_false]
+      exact ih nd.2 hm
+
+/-- a loop check is monotone when removing expressions cannot create a loop -/
+def Mono (lc : LoopCheck) : Prop :=
+  ∀ m m' id c, (∀ x, m x = "" ∨ m x = m' x) → lc m' id c = false → lc m id c = false
+
+theorem reach_mono (refs : String → List String) (hr : refs "" = []) (m m' : String → String) (t : String)
+    (hm : ∀ x, m x = "" ∨ m x = m' x) (f : Nat) (fr : List String)
+    (h : reach refs m t f fr = true) : reach refs m' t f fr = true := by
+  induction f generalizing fr with
+  | zero => simp [reach] at h
+  | succ f ih =>
+    simp only [reach, List.any_eq_true, Bool.or_eq_true] at h ⊢
+    obtain ⟨x, hx, hor⟩ := h
+    refine ⟨x, hx, ?_⟩
+    rcases hm x with e | e
+    · rw [e, hr] at hor
+      rcases hor with h1 | h1
+      · simp at h1
+      · cases f with
+        | zero => simp [reach] at h1
+        | succ g => simp [reach] at h1
+    · rw [← e]
+      rcases hor with h1 | h1
+      · exact Or.inl h1
+      · exact Or.inr (ih _ h1)
+
+theorem mono_loopsWith (refs : String → List String) (hr : refs "" = []) (fuel : Nat) : Mono (loopsWith refs fuel) := by
+  intro m m' id c hm h
+  unfold loopsWith at h ⊢
+  cases hq : reach refs m id fuel ((refs c).filter (fun x => x != id)) with
+  | false => rfl
+  | true => rw [reach_mono refs hr m m' id hm fuel _ hq] at h; cases h
 
 theorem firstInvalid_spec (docs : List (Option (String × Slave))) (i j : Nat) (h : firstInvalid docs i = some j) :
     i ≤ j ∧ docs[j - i]? = some none ∧ ∀ m, m < j - i → ∃ x, docs[m]? = some (some x) := by
